@@ -72,13 +72,21 @@ BgVerdict(r) ==
         IF n = 0 THEN V("C18", "interval sync never ran")
         ELSE IF MaxGap(w, 0, 0) > r.interval_ms + SlackMs \/ r.observed_ms - w[n] > r.interval_ms + SlackMs
                THEN V("C18", "more than one interval passed without a sync while the store was open")
-        ELSE IF Len(r.fsyncs) < n - 1 THEN V("C18", "the periodic sync does not fsync")
-        ELSE IF r.actives # <<>> /\ \E k \in 1..(IF Len(r.fsyncs) < n THEN Len(r.fsyncs) ELSE n) :
-                   \/ ~r.fsyncs[k].data
-                   \/ r.fsyncs[k].id < ActiveBefore(r.actives, w[k])
-                   \/ r.fsyncs[k].id > ActiveAfter(r.actives, w[k])
-               THEN V("C18", "the periodic sync forces a file that is not the active file")
-        ELSE OK
+        \* every tick (but the last, whose sync may still be under way) is followed by an fsync of a data file
+        \* that was the active one around that time; the store may fsync other files as well (a rollover that
+        \* seals the file it leaves, say), that is not this property's business
+        \* (within two intervals and a quarter of a second - a sync that has to wait for a busy writer gets the
+        \* lock when that write ends; one late tick is tolerated as a scheduling hiccup -, and in any case within
+        \* the general slack)
+        ELSE LET Synced(q, bound) ==
+                   \E j \in 1..Len(r.fsyncs) :
+                        /\ r.fsyncs[j].data /\ r.fsyncs[j].t >= w[q] - 10 /\ r.fsyncs[j].t <= w[q] + bound
+                        /\ (r.actives = <<>> \/ (r.fsyncs[j].id >= ActiveBefore(r.actives, w[q])
+                                                  /\ r.fsyncs[j].id <= ActiveAfter(r.actives, r.fsyncs[j].t)))
+             IN IF (\E k \in 1..(n - 1) : ~Synced(k, 3 * r.interval_ms + SlackMs))
+                     \/ Cardinality({m \in 1..(n - 1) : ~Synced(m, 2 * r.interval_ms + 250)}) >= 2
+                  THEN V("C18", "ticks of the periodic sync are not followed by an fsync of the active file")
+                ELSE OK
     ELSE IF i.policy = "never" THEN
         IF r.merge_starts # <<>> \/ r.hint_files > 0 THEN V("C18", "a merge ran although the merge policy is 'never'") ELSE OK
     ELSE IF i.pattern = "frag-fault" THEN
